@@ -26,6 +26,7 @@ import (
 	"sort"
 	"strings"
 	"sync/atomic"
+	"syscall"
 	"time"
 
 	"github.com/piotrnar/gocoin/client/common"
@@ -41,7 +42,7 @@ import (
 // ------------------------------------------------------------------ operations (outcome-agnostic)
 
 type Op struct {
-	A    string  `json:"a"`    // Submit | MineListing | MineForeign | MineRejected | Reorg | Tick | Expire | SaveLoad | Observe
+	A    string  `json:"a"`    // Submit | MineListing | MineForeign | MineRejected | Reorg | Tick | Expire | SaveLoad | SaveCutLoad | Observe
 	T    int     `json:"t"`    // Submit: transaction
 	Mode string  `json:"mode"` // Submit: net | trusted | local
 	K    int     `json:"k"`    // MineListing: number of listing entries to mine (< 0: all)
@@ -740,6 +741,79 @@ func (r *runner) blockUndoneCB(bl *btc.Block) {
 	r.emit(&Event{Ev: "Undone", B: id, Txs: r.blocks[id].txs, Obs: r.observe(false)})
 }
 
+// ------------------------------------------------------------------ damaged pool files
+
+// dumpLayout walks mempool.dmp (file version 9: tip hash | version | count | pooled records | count | rejected
+// records | end marker) and returns the offsets of the two counts and of every record boundary.
+func dumpLayout(b []byte) (counts []int, bounds []int) {
+	defer func() { recover() }()
+	vl := func(p int) (uint64, int) { return rdVar(b, p) }
+	p := 32
+	_, p = vl(p) // version
+	counts = append(counts, p)
+	n, q := vl(p)
+	p = q
+	bounds = append(bounds, p)
+	for i := uint64(0); i < n; i++ {
+		l, q := vl(p)
+		p = q + int(l) + 56
+		bounds = append(bounds, p)
+	}
+	counts = append(counts, p)
+	n, q = vl(p)
+	p = q
+	bounds = append(bounds, p)
+	for i := uint64(0); i < n; i++ {
+		flags := binary.LittleEndian.Uint32(b[p+36:])
+		p += 40
+		if flags&(1<<23) != 0 {
+			p += 32
+		}
+		if flags&(1<<22) != 0 {
+			p += int(flags & (1<<22 - 1))
+		}
+		bounds = append(bounds, p)
+	}
+	return
+}
+
+// damageDump: mode "corrupt": one of the two record counts is changed; otherwise the file is cut at one of the
+// interesting positions (0, inside the tip hash, inside the version, at every record boundary, in the middle of
+// every record, just before / inside the end marker, one byte short), selected by sel.
+func damageDump(b []byte, mode string, sel int) (string, []byte) {
+	if sel < 0 {
+		sel = -sel
+	}
+	counts, bounds := dumpLayout(b)
+	if mode == "corrupt" && len(counts) > 0 {
+		off := counts[sel%len(counts)]
+		nb := append([]byte{}, b...)
+		if (sel/2)%2 == 0 && nb[off] < 0xfc {
+			nb[off]++
+		} else if nb[off] > 0 {
+			nb[off]--
+		} else {
+			nb[off] = 3
+		}
+		return fmt.Sprintf("count byte at %d changed from %d to %d", off, b[off], nb[off]), nb
+	}
+	pos := []int{0, 16, 33, len(b) - 11, len(b) - 5, len(b) - 1}
+	for i, x := range bounds {
+		pos = append(pos, x)
+		if i > 0 {
+			pos = append(pos, (bounds[i-1]+x)/2)
+		}
+	}
+	cut := pos[sel%len(pos)]
+	if cut < 0 {
+		cut = 0
+	}
+	if cut > len(b) {
+		cut = len(b)
+	}
+	return fmt.Sprintf("cut at %d of %d", cut, len(b)), b[:cut]
+}
+
 // ------------------------------------------------------------------ one trace
 
 func (r *runner) reset() error {
@@ -966,6 +1040,29 @@ func (r *runner) runOp(op *Op) {
 		txpool.VerifSetNextExpire(time.Now().Add(-time.Second))
 		txpool.Tick()
 		r.emit(&Event{Ev: "Tick", Aged: aged, Exp: true, Obs: r.observe(r.wantLst)})
+	case "SaveCutLoad":
+		// a restart on the same tip with a pool file that was cut short (crash while saving) or damaged
+		txpool.MempoolSave(true)
+		fn := common.GocoinHomeDir + txpool.MEMPOOL_FILE_NAME
+		b, err := os.ReadFile(fn)
+		if err != nil {
+			r.emit(&Event{Ev: "Fail", What: "mempool.dmp not written: " + err.Error()})
+			return
+		}
+		what, nb := damageDump(b, op.Mode, op.K)
+		os.WriteFile(fn, nb, 0660)
+		// the loader println()s raw bytes of the damaged file: keep them out of the driver's stderr
+		saved, e1 := syscall.Dup(2)
+		if devnull, e2 := os.OpenFile(os.DevNull, os.O_WRONLY, 0); e1 == nil && e2 == nil {
+			syscall.Dup2(int(devnull.Fd()), 2)
+			defer devnull.Close()
+		}
+		ok := txpool.MempoolLoad()
+		if e1 == nil {
+			syscall.Dup2(saved, 2)
+			syscall.Close(saved)
+		}
+		r.emit(&Event{Ev: "SaveLoad", Acc: ok, Res: what, Obs: r.observe(true)})
 	case "SaveLoad":
 		txpool.MempoolSave(true)
 		ok := txpool.MempoolLoad()
